@@ -18,14 +18,27 @@ def gen_bounded(rng):
     for _ in range(rng.randint(5, 150)):
         r = rng.random()
         m = rng.randrange(len(ms))
-        if r < 0.7 or not pending:
+        if r < 0.15:
+            # batch form: per-symbol loop that stops at the first failure and keeps the prefix
+            t = ms[m][1]
+            k = rng.randint(1, 8)
+            syms = [(min(t, key=lambda x: x[2]) if rng.random() < 0.5 else rng.choice(t))[0] for _ in range(k)]
+            ops += [12, 9, m, k] + syms + [12]
+            pending.append(("batch", m, syms))
+        elif r < 0.7 or not pending:
             # prefer improbable symbols: they fill the sink quickly
             t = ms[m][1]
             e = min(t, key=lambda x: x[2]) if rng.random() < 0.5 else rng.choice(t)
             ops += [12, 1, m, e[0], 12]
             pending.append((m, e[0]))
         else:
-            pm, s = pending.pop()
+            top = pending.pop()
+            if top[0] == "batch":
+                # how much of a batch was kept is only known at run time: pop once with its model
+                # (also right when nothing of it was kept but older pushes used the same model)
+                ops += [2, top[1]]
+                continue
+            pm, s = top
             ops += [2, pm]
     return [wb, sb, pb] + enc_models(ms) + [cap] + ops
 
@@ -43,11 +56,14 @@ def _parse(inp):
 
 def oracle_C09(inp, out):
     """a failed write (-5) leaves the raw parts unchanged; successful pushes are popped back in
-    LIFO order afterwards (everything encoded before the failure still decodes; encoding goes on)"""
+    LIFO order afterwards (everything encoded before the failure still decodes; encoding goes on).
+    A failed BATCH keeps some prefix of its symbols (how many is not observable here), so the
+    oracle tracks every possible prefix length and demands that at least one stays consistent
+    with all later decodes."""
     if any(x in (-999999, -999998, -999997, -999996) for x in out):
         return "panic/abort/timeout"
     ms, cap, ops = _parse(inp)
-    pending = []
+    cands = [[]]          # candidate stacks of (model, symbol), top at the end
     try:
         o, j = 0, 0
         prev = None
@@ -65,20 +81,36 @@ def oracle_C09(inp, out):
             elif op == 1:
                 m, s = ops[j + 1], ops[j + 2]
                 if out[o] == 0:
-                    pending.append((m, s))
+                    cands = [c + [(m, s)] for c in cands]
                 elif out[o] == -5:
                     prev = "failed"
                 else:
                     return "unexpected encode result %d" % out[o]
                 o += 1; j += 3
+            elif op == 9:
+                m, k = ops[j + 1], ops[j + 2]
+                syms = ops[j + 3:j + 3 + k]
+                if out[o] == 0:
+                    cands = [c + [(m, x) for x in syms] for c in cands]
+                elif out[o] == -5:
+                    cands = [c + [(m, x) for x in syms[:q]] for c in cands for q in range(k)]
+                else:
+                    return "unexpected batch result %d" % out[o]
+                if len(cands) > 4096:
+                    return None
+                o += 1; j += 3 + k
             elif op == 2:
                 m = ops[j + 1]
-                if pending and pending[-1][0] == m:
-                    if out[o] != pending[-1][1]:
-                        return "decode returned %d, expected %d" % (out[o], pending[-1][1])
-                    pending.pop()
-                else:
-                    return None
+                nxt = []
+                for c in cands:
+                    if not c or c[-1][0] != m:
+                        return None          # a pop of something never pushed: out of scope
+                    if c[-1][1] == out[o]:
+                        nxt.append(c[:-1])
+                if not nxt:
+                    return "decode returned %d, which is not the most recent pushed symbol under any prefix a " \
+                           "failed batch may have kept" % out[o]
+                cands = nxt
                 o += 1; j += 2
             else:
                 return None
